@@ -168,7 +168,8 @@ def verify_function(qualname: str, self_class: Optional[str] = None, timeout_ms=
                 ci = ct.by_name[self_class]
                 ex.assume(ct.is_class(ci, env[names[0]].term))
                 it.restrict_class(env[names[0]], [ci])
-            cenv = dict(env)
+            # clauses see the values the arguments had on entry (the code may narrow an argument in place)
+            cenv = {k: (SV(v.term, v.ty, oid=v.oid, fresh=v.fresh) if isinstance(v, SV) else v) for k, v in env.items()}
             if is_ctor:
                 cenv.pop(names[0])
             # contract clauses use the parameter names of the function the contract is declared on;
@@ -179,6 +180,11 @@ def verify_function(qualname: str, self_class: Optional[str] = None, timeout_ms=
             for c in con.requires:
                 r = it.eval_clause(c.node, c.globs, it.clause_env(c, cenv))
                 ex.assume(it.bterm(it.truth_term(r)))
+            it.fuv_narrows = {}
+            for pname, c in con.narrows.items():
+                if isinstance(env.get(pname), SV):
+                    val = it.eval_clause(c.node, c.globs, it.clause_env(c, cenv))
+                    it.fuv_narrows[pname] = (env[pname], c, val)
             for c in con.hints:
                 it.eval_clause(c.node, c.globs, it.clause_env(c, cenv))    # instances of proved lemmas
             it.depth = 0
